@@ -265,6 +265,14 @@ def finish_scenario(sc, src, family):
     sc["family"] = family
     if has_fail:
         sc["settleMs"] = 1300
+    # A message the polling path must forward whose tx is ALSO re-observed can reach the output through either path, and the
+    # harness cannot tell the paths apart when it waits: such scenarios are given a long quiet period (>= 100 poll
+    # intervals) before End, and TLC's End obligation (forwarded by the POLLING path) is the verdict for them.
+    reqs = {op["tx"] for st in sc["steps"] for op in st["ops"] if op["op"] == "req"} | {op["tx"] for op in sc["pre"] if op["op"] == "req"}
+    by_id = {e["id"]: e for e in w.stream}
+    sc["reobsOverlap"] = any(by_id[i]["tx"] in reqs for i in sc["expect"] if i in by_id)
+    if sc["reobsOverlap"]:
+        sc["settleMs"] = max(sc.get("settleMs", 0), 600)
     return sc
 
 
@@ -1214,6 +1222,9 @@ def classify(rj, scen_lines, mainnet):
         miss = [ev_all.get(i, {}) for i in ln["a"].get("missing", [])]
         if miss and all(m.get("cl") == 255 for m in miss):
             return "C09", "liveness/final-message-not-forwarded/cl=255"
+        if not miss:
+            # every expected message did reach the output, but (according to TLC) not through the polling path
+            return "C09", "liveness/final-message-not-forwarded/only-by-re-observation"
         return "C09", "liveness/final-message-not-forwarded"
     if ln["ev"] == "Req":
         a = ln["a"]
